@@ -126,6 +126,10 @@ def gen_program(prng):
                     'lang': prng.choice(['yaql', 'jinja']),
                     # completion through the engine's postponed path
                     'wait_after': prng.random() < 0.2,
+                    # a publication on the clause the task's outcome does
+                    # NOT take: its value must never be seen anywhere
+                    'never': (prng.choice(GLOBAL)
+                              if prng.random() < 0.5 else None),
                     # branch and global publications on two different
                     # clauses when two clauses fire
                     'split': prng.random() < 0.5}
@@ -219,8 +223,14 @@ def to_yaml(P):
         if t.get('wait_after'):
             d['wait-after'] = 1
         dead = (P.get('dead') or {}).get(str(i))
+        dead_cl = 'on-error' if ok else 'on-success'
         if dead:
-            d['on-error' if ok else 'on-success'] = ['t%d' % j for j in dead]
+            d[dead_cl] = ['t%d' % j for j in dead]
+        if t.get('never'):
+            d[dead_cl] = {'publish': {'global': {
+                t['never']: 't%d.never' % i}}}
+            if dead:
+                d[dead_cl]['next'] = ['t%d' % j for j in dead]
         tasks['t%d' % i] = d
     wf = {'type': 'direct',
           'output': {v: "<%% $.get('%s') %%>" % v for v in BRANCH + GLOBAL},
